@@ -26,6 +26,7 @@ type DriverOpts struct {
 	Deadline time.Duration
 	Hashes   string // when set: write "unit sub hash" lines to this file (determinism self-test)
 	NoEvid   bool
+	To       int // run only units [0,To) (self-tests); 0 = all
 }
 
 type workerRun struct {
@@ -156,6 +157,9 @@ func RunDriver(o DriverOpts) int {
 		}
 	}
 	units := e.Units(o.Tier)
+	if o.To > 0 && o.To < units {
+		units = o.To
+	}
 	if units < n {
 		n = units
 	}
@@ -169,7 +173,7 @@ func RunDriver(o DriverOpts) int {
 	fmt.Printf("goatsim: property=%s engine=%s tier=%s VERIF_SEED=%d units=%d workers=%d\n", o.Prop, e.Name(), o.Tier, o.Seed, units, n)
 
 	base := []string{"--prop", o.Prop, "--tier", o.Tier, "--seed", fmt.Sprint(o.Seed), "--work", work, "--replays", replayDir,
-		"--deadline", fmt.Sprint(int(o.Deadline.Seconds()))}
+		"--deadline", fmt.Sprint(int(o.Deadline.Seconds())), "--to", fmt.Sprint(units)}
 	if o.Hashes != "" {
 		base = append(base, "--hashes")
 	}
